@@ -301,7 +301,7 @@ fn exec(sc: &Scn, render: bool) -> RunOutput {
     }
     h.byte(fault.map_or(0xff, |f| f as u8));
     drop(obs);
-    let out = RunOutput {
+    let out = RunOutput { blocked: false,
         steps: w.sim.steps,
         fingerprints: fps,
         outcome: h.0,
